@@ -1028,6 +1028,11 @@ def search(ctx):
 
 
 def replay(ctx, rep):
+    import os
+    from lib import leanbuild
+    ctx.driver = DRIVER
+    if not os.path.exists(os.path.join(wire.LEAN, ".lake", "build", "bin", DRIVER)):
+        leanbuild.build([DRIVER])
     hits = []
     for v in rep.get("violations", []):
         c = v["case"]
